@@ -1,4 +1,7 @@
 import A2Verif.Lemmas.FsCpmModify
+import A2Verif.Lemmas.FsCpmRename3
+import A2Verif.Lemmas.FsCpmPut2
+import A2Verif.Lemmas.FsCpmQuery
 import A2Verif.Lemmas.FsCpmFormat
 import A2Verif.Lemmas.FsCpmCheck
 import A2Verif.Props.C01
@@ -13,12 +16,20 @@ import A2Verif.Props.C05
 harness, `Drv/FsCpm.lean`, on every CP/M configuration).  Here: under the on-disk invariant `Inv d r` (`d` = the
 disk parameter block, a parameter of the model) the independent reader reads the image as the well-formed,
 leak-free volume `volOf d r`; `format` establishes `Inv` for CP/M 2 and for CP/M 3 (label, time stamps); the
-entry-only operations `delete`, `lock`, `unlock`, `retype` preserve `Inv` and are steps the abstract specification
+entry-only operations `delete`, `rename`, `lock`, `unlock`, `retype` preserve `Inv` and are steps the abstract specification
 allows (`stepOk`); hence every history of these operations is a `validFrom` trace and the history-level theorems
 of `Props/C02 … C05` hold for the concrete model.
 
-Partial: the refinement of `put`, `rename`, `protect`, `unprotect` is not proved here (see `design/FsCpm.md`);
-they are tied to the real code by the byte-exact harness tie only.
+The model transcribes `split_user_filename` **with** `proposed_fixes/cpm-user-prefix.diff` applied (only the canonical
+decimal spelling of a user prefix is accepted).  Without it a2kit's `get_file` and `split_user_filename` disagree about
+the user area of `01:X`, `+1:X`, `1:X:Y`, a second file of the same name can be created, and `rename_refines` would be
+false (defect found by this proof; direct oracle `user-prefix-alias-refused` in `harness/src/fam/fs_cpm.rs`).
+`put`: every `put` that reports an error — an early refusal (duplicate name, disk full, directory full, bad name) or a
+failure in the middle of the write loops — preserves `Inv` and leaves every file and the listing as they were
+(`put_error_step`); a successful `put` writes data into blocks that were neither reserved nor referenced and saves a
+directory that still holds every old file entry in its place (`put_success_frame_partial`).
+Partial: the full refinement of a *successful* `put` (the new file reads back, `Inv` afterwards) and of `protect`,
+`unprotect` is not proved here (see `design/FsCpm.md`); they are tied to the real code by the byte-exact harness tie.
 -/
 namespace A2Verif.FsCpm
 open A2Verif.Fs.Cpm
@@ -43,10 +54,56 @@ example : DpbOk { bsh := 3, exm := 0, dsm := 184, drm := 63, al0 := 0xC0, al1 :=
 example : DpbOk { bsh := 4, exm := 1, dsm := 196, drm := 63, al0 := 0xC0, al1 := 0, v3 := false } := by decide
 example : DpbOk { bsh := 3, exm := 0, dsm := 174, drm := 63, al0 := 0xC0, al1 := 0, v3 := true } := by decide
 
+instance (d : Dpb) : Decidable (ResvOk d) := by unfold ResvOk; infer_instance
+
+/-- `is_reserved` of the model agrees with the reader's directory block list, for the harness configurations -/
+example : ResvOk { bsh := 3, exm := 0, dsm := 127, drm := 47, al0 := 0xC0, al1 := 0, v3 := false } := by decide +kernel
+example : ResvOk { bsh := 3, exm := 0, dsm := 184, drm := 63, al0 := 0xC0, al1 := 0, v3 := false } := by decide +kernel
+example : ResvOk { bsh := 4, exm := 1, dsm := 196, drm := 63, al0 := 0xC0, al1 := 0, v3 := false } := by decide +kernel
+example : ResvOk { bsh := 3, exm := 0, dsm := 174, drm := 63, al0 := 0xC0, al1 := 0, v3 := true } := by decide +kernel
+
+instance (d : Dpb) : Decidable (ResvCount d) := by unfold ResvCount; infer_instance
+example : ResvCount { bsh := 3, exm := 0, dsm := 127, drm := 47, al0 := 0xC0, al1 := 0, v3 := false } := by decide
+example : ResvCount { bsh := 3, exm := 0, dsm := 184, drm := 63, al0 := 0xC0, al1 := 0, v3 := false } := by decide
+example : ResvCount { bsh := 4, exm := 1, dsm := 196, drm := 63, al0 := 0xC0, al1 := 0, v3 := false } := by decide
+example : ResvCount { bsh := 3, exm := 0, dsm := 174, drm := 63, al0 := 0xC0, al1 := 0, v3 := true } := by decide
+
+/-- `stat().free_blocks` of the concrete model is the number of units the independent reader finds free (C04: the
+reported free space), in every state satisfying the invariant -/
+theorem cpm_stat_free_is_reading {d : Dpb} {r : Raw} (h : Inv d r) (hc : ResvCount d) (hsmall : d.dsm + 1 < 65536) :
+    Fs.Cpm.statFree d r = .ok (volOf d r).free := statFree_spec h hc hsmall
+
+/-! ## `put` -/
+
+/-- **a `put` that reports an error refines "refused"**: whatever the error is and wherever it occurs (also after data
+blocks have been written), the invariant holds afterwards and the reading — every file, the listing, the free
+count — is what it was (C02, C05 for refusals; "a full disk or a full directory loses nothing") -/
+theorem put_error_step {d : Dpb} {r r' : Raw} {f : FImg} {now : Bytes} {res : R Unit} (h : Inv d r) (hr : ResvOk d)
+    (hop : Fs.Cpm.put d r f now = (res, r')) (herr : okB res = false) (op : FsOp) :
+    Inv d r' ∧ volOf d r' = volOf d r ∧ stepOk (cpmParams d) (volOf d r) op false (volOf d r') = true := by
+  rcases put_outcome h hop with ⟨_, hf⟩ | ⟨hok, _⟩
+  · obtain ⟨hinv', hv⟩ := frame_volOf h hr hf
+    exact ⟨hinv', hv, by rw [hv]; exact (refused_same h op).2⟩
+  · rw [hok] at herr; cases herr
+
+/-- partial — the full statement is `Inv d r → PutArgsOk → put d r f now = (.ok (), r') → Inv d r' ∧ stepOk … (.put (canon f.fullPath) …) true …`.
+Proved here: a successful `put` is (1) writes into blocks that were neither reserved nor referenced by any file entry,
+(2) followed by `save_directory` of a directory of 32-byte entries that still holds every old file entry at its index.
+Missing: the characterisation of the *new* entries (key, extent numbers, pointers, record counts) needed to read the new
+file back. -/
+theorem put_success_frame_partial {d : Dpb} {r r' : Raw} {f : FImg} {now : Bytes} (h : Inv d r)
+    (hop : Fs.Cpm.put d r f now = (.ok (), r')) :
+    ∃ (sr : Raw) (dir2 : Dir), Frame d (dirOf d r) r sr ∧ KeepsFiles (dirOf d r) dir2 ∧ (∀ e ∈ dir2, e.length = 32) ∧
+      saveDirectory d sr dir2 = (.ok (), r') := by
+  rcases put_outcome h hop with ⟨hf, _⟩ | ⟨_, hd⟩
+  · cases hf
+  · exact hd.ex
+
 /-! ## operations of the concrete model -/
 
 inductive Op where
   | delete (xname : Bytes)
+  | rename (old new : Bytes)
   | lock (xname : Bytes)
   | unlock (xname : Bytes)
   | retype (xname ty : Bytes)
@@ -54,6 +111,7 @@ inductive Op where
 /-- run one operation on an image: (did it report success, the image afterwards) -/
 def Op.run (d : Dpb) (r : Raw) : Op → Bool × Raw
   | .delete x => (okB (Fs.Cpm.delete d r x).1, (Fs.Cpm.delete d r x).2)
+  | .rename o n => (okB (Fs.Cpm.rename d r o n).1, (Fs.Cpm.rename d r o n).2)
   | .lock x => (okB (Fs.Cpm.lock d r x).1, (Fs.Cpm.lock d r x).2)
   | .unlock x => (okB (Fs.Cpm.unlock d r x).1, (Fs.Cpm.unlock d r x).2)
   | .retype x ty => (okB (Fs.Cpm.retype d r x ty).1, (Fs.Cpm.retype d r x ty).2)
@@ -61,6 +119,7 @@ def Op.run (d : Dpb) (r : Raw) : Op → Bool × Raw
 /-- the abstract operation a concrete one stands for (`canon`: user prefix `0:` dropped, upper case, `.` appended to a bare name) -/
 def Op.abs : Op → FsOp
   | .delete x => .delete (canon x)
+  | .rename o n => .rename (canon o) (canon n)
   | .lock x => .lock (canon x)
   | .unlock x => .unlock (canon x)
   | .retype x _ => .retype (canon x)
@@ -71,12 +130,16 @@ theorem step_refines {d : Dpb} {r : Raw} (h : Inv d r) (op : Op) :
     Inv d (op.run d r).2 ∧ stepOk (cpmParams d) (volOf d r) op.abs (op.run d r).1 (volOf d (op.run d r).2) = true := by
   cases op with
   | delete x => exact delete_refines h rfl
+  | rename o n => exact rename_refines h rfl
   | lock x => exact lock_refines h rfl
   | unlock x => exact unlock_refines h rfl
   | retype x ty => exact retype_refines h rfl
 
 theorem delete_step {d : Dpb} {r r' : Raw} {x : Bytes} {res : R Unit} (h : Inv d r) (hop : Fs.Cpm.delete d r x = (res, r')) :
     Inv d r' ∧ stepOk (cpmParams d) (volOf d r) (.delete (canon x)) (okB res) (volOf d r') = true := delete_refines h hop
+theorem rename_step {d : Dpb} {r r' : Raw} {o n : Bytes} {res : R Unit} (h : Inv d r)
+    (hop : Fs.Cpm.rename d r o n = (res, r')) :
+    Inv d r' ∧ stepOk (cpmParams d) (volOf d r) (.rename (canon o) (canon n)) (okB res) (volOf d r') = true := rename_refines h hop
 theorem lock_step {d : Dpb} {r r' : Raw} {x : Bytes} {res : R Unit} (h : Inv d r) (hop : Fs.Cpm.lock d r x = (res, r')) :
     Inv d r' ∧ stepOk (cpmParams d) (volOf d r) (.lock (canon x)) (okB res) (volOf d r') = true := lock_refines h hop
 theorem unlock_step {d : Dpb} {r r' : Raw} {x : Bytes} {res : R Unit} (h : Inv d r) (hop : Fs.Cpm.unlock d r x = (res, r')) :
@@ -197,8 +260,9 @@ theorem cpm_listing_is_history_fold {d : Dpb} {r : Raw} (h : Inv d r) {ops : Lis
 `exD`: a 16-block CP/M 2 volume (1K blocks, 32 directory entries in block 0).  `exImg`: formatted by the model, then
 `a.txt` (two chunks, lower-case name, user 0) and `3:B` (one chunk, user 3) stored by the model's `put`.  The
 invariant of `exImg` is established by the executable check `invB` (sound: `invB_sound`).  `exOps`: lock `A.TXT`,
-a refused delete of it, unlock (lower-case spelling with `0:` prefix), retype to `sys`, delete, a refused delete
-of a missing file, delete `3:b` -/
+a refused delete and a refused rename of it, unlock (lower-case spelling with `0:` prefix), retype to `sys`, a refused
+rename onto the existing `3:B`, a rename into user area 7 (`7:c.d`), a refused delete of the old name, delete of the new
+name, delete `3:b` -/
 
 def exD : Dpb := { bsh := 3, exm := 0, dsm := 15, drm := 31, al0 := 128, al1 := 0, v3 := false }
 
@@ -211,15 +275,16 @@ def exImg : Raw :=
   (Fs.Cpm.put exD (Fs.Cpm.put exD (Fs.Cpm.format exD exBlank [] none).2 exA [0, 0, 0, 0]).2 exB [0, 0, 0, 0]).2
 
 def exOps : List Op :=
-  [.lock [65, 46, 84, 88, 84], .delete [65, 46, 84, 88, 84], .unlock [48, 58, 97, 46, 116, 120, 116],
-   .retype [65, 46, 84, 88, 84] [115, 121, 115], .delete [65, 46, 84, 88, 84], .delete [90], .delete [51, 58, 98]]
+  [.lock [65, 46, 84, 88, 84], .delete [65, 46, 84, 88, 84], .rename [65, 46, 84, 88, 84] [67], .unlock [48, 58, 97, 46, 116, 120, 116],
+   .retype [65, 46, 84, 88, 84] [115, 121, 115], .rename [97, 46, 116, 120, 116] [51, 58, 66], .rename [65, 46, 84, 88, 84] [55, 58, 99, 46, 100],
+   .delete [65, 46, 84, 88, 84], .delete [55, 58, 67, 46, 68], .delete [51, 58, 98]]
 
 set_option maxRecDepth 100000 in
 theorem exImg_inv : Inv exD exImg := invB_sound (by decide +kernel)
 
 set_option maxRecDepth 100000 in
 /-- what the concrete model answers on the example history -/
-example : (trace exD exImg exOps).map (·.ok) = [true, false, true, true, true, false, true] := by decide +kernel
+example : (trace exD exImg exOps).map (·.ok) = [true, false, false, true, true, false, true, false, true, true] := by decide +kernel
 
 set_option maxRecDepth 100000 in
 /-- the example image holds the two files under their canonical paths -/
